@@ -259,7 +259,7 @@ func checkC04(c ProtoCase, st *Stats) error {
 	return err
 }
 
-var propC04 = Register(Prop[ProtoCase]{ID: "C04", Name: "C04", Check: checkC04})
+var propC04 = Register(Prop[ProtoCase]{ID: "C04", Name: "C04", Pending: true, Check: checkC04})
 
 func TestC04Rapid(t *testing.T) {
 	p := propC04
